@@ -49,6 +49,18 @@ Two further alphabets are crossed with the structures (same oracle clauses, noth
     public entry point, the genuinely cross-nested structures of (c), (d), and clause (e) - generating function, terms and
     closed form (the reference model only ever reads utilities of available alternatives).  Thorough: also with the
     availability conditions written in AVFORMS and the parameters moved away from their initial values.
+  * the VALUE of the availability condition of an available alternative (parts avval*): in Biogeme an alternative is available
+    when its condition is NON ZERO (the test of the logit expression, of mev / logmev and of the nest sums of the nested logit),
+    so a condition holding a count (number of vehicles 0, 1, 2, 3), a share or any other non-zero number is as valid as 0 / 1,
+    and no formula of the nested family contains that value.  AV_VALUES: per seed three positive values other than one (a
+    count, a larger number, a fraction; thorough: also a negative one).  For every availability pattern the values are placed
+    on each single available alternative (the others keep 1) and on all available alternatives together (values rotating),
+    crossed with the utility vectors, and the table is put through every clause that stays inside the nested / logit family:
+    (a) unit parameters == logit, (c) scale one == unscaled, (d) tuples == objects, every public entry point of the nested
+    family, and clause (e) - generating function, its real derivative, the published terms and the closed form, where the
+    reference model reads "available" as "condition non zero".  The same valued conditions are also written without data
+    columns (Python numbers, Numeric objects, numbers and columns, products of expressions).  Clause (b) is NOT evaluated on
+    these tables: the cross-nested functions use the condition as a weight (see ASSUMPTIONS).
 """
 from __future__ import annotations
 
@@ -67,7 +79,8 @@ LEVEL = 'exploration'
 TECHNIQUE = ('bounded exhaustive enumeration of nest structures x parameter grids x availability patterns x utility grids x '
              'every public entry point of the family (old names included) x parameters evaluated at / away from their initial '
              'values x the availability conditions written as data columns / None / Python numbers / Numeric objects / numbers '
-             'and columns / expressions x utilities of unavailable alternatives carrying extreme not-applicable codes; paired evaluation of the model functions by the real engine (reductions, scale one, tuple syntax) and real '
+             'and columns / expressions x utilities of unavailable alternatives carrying extreme not-applicable codes x availability '
+             'conditions of available alternatives holding non-zero values other than one (counts, shares, a negative number); paired evaluation of the model functions by the real engine (reductions, scale one, tuple syntax) and real '
              'differentiation of the published generating function by the engine gradient, against closed forms')
 RULE = ('one case = one (oracle clause, pair of model functions, nest structure, parameter assignment, availability pattern); '
         'every utility vector x chosen alternative under it is one compared value vector (counted in evaluations). '
@@ -79,7 +92,9 @@ RULE = ('one case = one (oracle clause, pair of model functions, nest structure,
         'the form they are written in (AVFORMS: int, float, bool, Numeric, two mixtures of numbers and columns, '
         'expressions) and whether the utilities of the unavailable alternatives carry not-applicable codes (NA_CODES: each '
         'single unavailable alternative / all of them x two codes of opposite sign x utility vectors of the others are the '
-        'value vectors of one case). distinct = distinct such keys.')
+        'value vectors of one case) or the availability conditions of available alternatives hold values other than one '
+        '(AV_VALUES: the valued pattern - which alternative holds which value - is the availability pattern of the case). '
+        'distinct = distinct such keys.')
 ASSUMPTIONS = [
     'grids of the per-seed alphabets of C05 (utilities, nest parameters, scale, alpha splits); J <= 3 quick, J <= 4 thorough; '
     'cross-nested structures: 2 nests (J <= 3 quick, J <= 4 thorough) or 3 nests (J = 2 quick, J <= 3 thorough), reduced '
@@ -101,8 +116,8 @@ ASSUMPTIONS = [
     'thorough: two assignments x all three modes except for the largest families 3 nests x J = 3 and 2 nests x J = 4)',
     'old names of the generating function / of the terms and the scaled terms with mu = 1 (GEN_ENTRIES, 5 combinations) '
     'in the derivative clause: every combination for J <= 3, rotating with the structure for J = 4',
-    'availability forms (AVFORMS, 7 forms; availability values are 0 / 1 - the cross-nested functions use the condition as '
-    'a weight, other non-zero values are outside the domain): every availability pattern is its own expression, evaluated '
+    'availability forms (AVFORMS, 7 forms; availability values are 0 / 1 in these parts - the cross-nested functions use the '
+    'condition as a weight, other non-zero values are outside their domain; for the nested family see AV_VALUES below): every availability pattern is its own expression, evaluated '
     'on every utility vector x chosen alternative; nest parameters: all ones and one rotating assignment without ones. '
     'Clauses (a)-(d) on nested structures: quick - J = 2 every structure x pattern x 2 assignments x one all-number form '
     'and one other form rotating with (structure, assignment, pattern); J = 3 every third structure (rotating with the '
@@ -127,6 +142,19 @@ ASSUMPTIONS = [
     'availability-form part (quick 2 nests x J = 2).  Thorough, J <= 3: crossed with the availability forms (one table per '
     'pattern, two rotating forms for (a)-(d) with J = 2, one above; one form for (e)).  Extreme utilities of AVAILABLE '
     'alternatives are not in this alphabet (the common levels of C05 cover large utilities inside the range of exp)',
+    'availability values (AV_VALUES: per seed a count, a larger number and a fraction, all positive and different from one; '
+    'thorough: also one negative value): available means condition != 0.  Every availability pattern x placement (each single '
+    'available alternative, the others keeping 1; all available alternatives together, values rotating) x value x utility '
+    'vectors (J <= 3: 2 levels per alternative, J = 4: every fourth vector).  Only the clauses inside the nested / logit family: '
+    '(a), (c), (d) for nested / lognested / nested_mev_mu, the entry points of the nested family, clause (e) with the default '
+    'names and one rotating combination of GEN_ENTRIES (reference: available = non zero); clause (b) and every cross-nested '
+    'function are left out (they multiply the nest term by the condition: values other than 0 / 1 are outside their domain). '
+    'Structures: every one, J <= 3 quick / J <= 4 thorough, nest parameters all ones and one rotating assignment without ones '
+    '(thorough J <= 3: full grid, scaled versions, one moved-parameter mode rotating); entry points: the structures of the '
+    'part na_entry.  Valued conditions written without data columns (VAL_AVFORMS: float, Numeric, int-or-float, two mixtures '
+    'of numbers and columns, expressions; one table per valued pattern, form rotating): clause (e) for J = 2 every pattern, '
+    'J = 3 every third pattern (thorough: every one), J = 4 (thorough) every eighth one; thorough also (a), (c), (d) for J = 2 '
+    'and every fourth pattern of J = 3',
 ]
 ANCHOR_FILES = ['src/biogeme/models/nested.py', 'src/biogeme/models/cnl.py', 'src/biogeme/models/mev.py',
                 'src/biogeme/models/logit.py', 'src/biogeme/nests.py']
